@@ -8,27 +8,37 @@ pub enum CelStackValue<'a> {
     BoundCall {
         callable: RsCallable<'a>,
         value: CelValue,
+        // the member name the callable was looked up under
+        name: String,
     },
+}
+
+// A method that was looked up by member access but is used as a value instead
+// of being called: the object has no field of that name.
+fn not_a_field(name: &str) -> CelError {
+    CelError::attribute("obj", name)
 }
 
 impl<'a> CelStackValue<'a> {
     pub fn into_value(self) -> CelResult<CelValue> {
         match self {
             CelStackValue::Value(val) => Ok(val),
-            _ => Err(CelError::internal("Expected value")),
+            CelStackValue::BoundCall { name, .. } => Err(not_a_field(&name)),
         }
     }
 
     pub fn as_value(&'a self) -> CelResult<&'a CelValue> {
         match self {
             CelStackValue::Value(val) => Ok(val),
-            _ => Err(CelError::internal("Expected value")),
+            CelStackValue::BoundCall { name, .. } => Err(not_a_field(name)),
         }
     }
 
     pub fn as_bound_call(&'a self) -> Option<(&'a RsCallable<'a>, &'a CelValue)> {
         match self {
-            CelStackValue::BoundCall { callable, value } => Some((callable, value)),
+            CelStackValue::BoundCall {
+                callable, value, ..
+            } => Some((callable, value)),
             _ => None,
         }
     }
@@ -43,10 +53,9 @@ impl<'a> Into<CelStackValue<'a>> for CelValue {
 impl<'a> TryInto<CelValue> for CelStackValue<'a> {
     type Error = CelError;
     fn try_into(self) -> Result<CelValue, Self::Error> {
-        if let CelStackValue::Value(val) = self {
-            Ok(val)
-        } else {
-            Err(CelError::internal("Expected value 2"))
+        match self {
+            CelStackValue::Value(val) => Ok(val),
+            CelStackValue::BoundCall { name, .. } => Err(not_a_field(&name)),
         }
     }
 }
